@@ -78,7 +78,6 @@ func WriteLayerfile(filename string, layer *Layerinfo) error {
 	if nil != err {
 		return err
 	}
-	defer cursor.Close()
 	if len(layer.Base) > 0 {
 		cursor.Printf("base %s\n\n", layer.Base)
 	}
@@ -91,7 +90,7 @@ func WriteLayerfile(filename string, layer *Layerinfo) error {
 	for _, mnt := range layer.ConfigExports {
 		cursor.Printf("export %s %s %s\n", mnt.Fstype, mnt.Source, mnt.Mount)
 	}
-	return nil
+	return cursor.Close()
 }
 
 
